@@ -164,8 +164,11 @@ def finish(ctx: Ctx, level, technique, explanation, checker_cmd):
         b["instances"] += f.total
         b["time_s"] = round(b["time_s"] + f.time, 3)
     cov = {
-        "obligations": obligations,
+        # obligations refuted by a listed known finding are reported apart (they are violations of the property that are
+        # recorded in known_findings.jsonl); "obligations" counts the remaining ones, all of which must be discharged
+        "obligations": obligations - known_refuted,
         "discharged": discharged,
+        "obligations_including_known_findings": obligations,
         "refuted_known_findings": known_refuted,
         "refuted_new": len([v for v in new_viol]),
         "undecided": len(ctx.undecided),
@@ -197,8 +200,12 @@ def finish(ctx: Ctx, level, technique, explanation, checker_cmd):
     with open(os.path.join(ROOT, "evidence", f"{ctx.pid}.json"), "w") as f:
         json.dump(ev, f, indent=1, default=str)
 
+    printed = set()
     for v in known_hit:
-        print(f"KNOWN-FINDING: property={ctx.pid} {v.what}")
+        if v.key in printed:
+            continue
+        printed.add(v.key)
+        print(f"KNOWN-FINDING: property={ctx.pid} {kn[v.key].get('desc', v.what)[:300]}")
     shown = 0
     for v in new_viol:
         shown += 1
